@@ -815,8 +815,9 @@ def emit_stmt(em, s, linemap):
     linemap[id(s)] = len(em.lines)
 
 
-def emit(prog):
-    """-> (source text, linemap)"""
+def emit(prog, before_main=None):
+    """-> (source text, linemap); `before_main` = extra source lines placed after the declarations
+    and before the first top-level statement"""
     em = Emitter()
     linemap = {}
     for h in prog.get("hosts", []):
@@ -842,6 +843,8 @@ def emit(prog):
             em.w(pexpr(b[3], top=True))
         em.ind -= 1
         em.w("}")
+    for ln in before_main or []:
+        em.w(ln)
     for s in prog["main"]:
         emit_stmt(em, s, linemap)
     return "\n".join(em.lines) + "\n", linemap
